@@ -361,14 +361,15 @@ def _saf_dfn_file(layout, north_rot):
     return [north_rot, north_rot + 90.0, north_rot - 90.0], True
 
 
-def build_saf(wd, cfg):
+def build_saf(wd, cfg, **wkw):
+    """``wkw``: overrides handed to the writer (history family: malformed content at the same paths)."""
     s = F.int_samples(cfg["payload"], cfg["n"])
     out = []
     for li, layout in enumerate(SAF_LAYOUTS):
         p = os.path.join(wd, f"rec_{li}.saf")
         cols = [s[LETTER_TO_COMP[ch]] for ch in layout]
         F.write_saf(p, cols, layout, cfg["rate"], north_rot=cfg["north_rot"], newline=cfg["newline"],
-                    padded=cfg["padded"])
+                    padded=cfg["padded"], **wkw)
         dfn_file, may_refuse = _saf_dfn_file(layout, cfg["north_rot"])
         alt = dict(ns=_f64(s["ns"]), ew=_f64(s["ew"]), vt=_f64(s["vt"]), dfn_file=dfn_file)
         out.append(dict(label=layout, fnames=p,
@@ -376,11 +377,11 @@ def build_saf(wd, cfg):
     return out
 
 
-def build_minishark(wd, cfg):
+def build_minishark(wd, cfg, **wkw):
     s = F.int_samples(cfg["payload"], cfg["n"])
     p = os.path.join(wd, "rec.minishark")
     F.write_minishark(p, s["vt"], s["ns"], s["ew"], cfg["rate"], cfg["gain"], cfg["conversion"],
-                      newline=cfg["newline"])
+                      newline=cfg["newline"], **wkw)
     scale = float(cfg["gain"] * cfg["conversion"])
     alt = {c: _f64([v / scale for v in s[c]]) for c in COMPS}
     alt["dfn_file"] = [0.0]
@@ -410,14 +411,15 @@ def peer_expected(codes, vals, dt):
     return Expected([a], "exact", dt)
 
 
-def build_peer(wd, cfg):
+def build_peer(wd, cfg, npts=None):
+    """``npts``: {component: NPTS value written in that file's header} (default: the true count)."""
     toks = F.peer_tokens(cfg["payload"], cfg["n"], cfg["style"])
     vals = {c: _f64([float(t) for t in toks[c]]) for c in COMPS}
     codes = tuple(cfg["codes"].split(","))
     paths = {}
     for c, code in zip(COMPS, codes):
         paths[c] = os.path.join(wd, f"rec_{c}.vt2")
-        F.write_peer(paths[c], toks[c], code, cfg["dt"], newline=cfg["newline"])
+        F.write_peer(paths[c], toks[c], code, cfg["dt"], npts=(npts or {}).get(c), newline=cfg["newline"])
     exp = peer_expected(codes, vals, float(cfg["dt"]))
     return [dict(label="-".join(order), fnames=[paths[c] for c in order], exp=exp) for order in ORDERS]
 
